@@ -93,11 +93,15 @@ def main():
                 fails.append({"what": "%s: export differs from the export of the little-endian microsecond pcapng (%s, %s bytes vs %s, %s bytes); connections %s" % (
                     label, st2, len(out2 or b""), st, len(ref or b""), [c.kind for c in case.conns]), "capture": data.hex(), "keylog": case.keylog, "args": a})
             # the reader model against the implementation's reader, on the same file
-            if m and not legacy and n_model > 0:
+            if m and not legacy and n_model > 0 and len(data) > 60_000:
+                hist["model_skipped_large_file"] += 1           # the list-based reader model is quadratic in the file size
+            elif m and not legacy and n_model > 0:
                 n_model -= 1
                 hist["model_runs"] += 1
                 r = impl_items(impl, data)
                 mt = m.ask("pcapng", data.hex())
+                if isinstance(mt, Skipped):
+                    continue
                 if isinstance(r, str) or not mt.startswith("Ok "):
                     if not (isinstance(r, str) and mt.startswith("Exn")):
                         disagreements.append({"what": label, "model": mt[:100], "impl": str(r)[:100]})
